@@ -25,7 +25,7 @@ def _raw(ctx, x):
 def _same(ctx, got, exp):
     if ctx.mode == 'sym':
         gz = got.z if isinstance(got, SymNum) else core._q(F(got))
-        return core.SymBool(gz == exp)
+        return core.SymBool(('z3', gz == exp))
     return F(got) == F(exp)
 
 
